@@ -105,12 +105,23 @@ impl Command for CommandImpl {
                 (start, end)
             };
 
-            let start_index: usize = start.try_into().unwrap();
-            let end_index: usize = end.try_into().unwrap();
+            let start_index: usize = match start.try_into() {
+                Ok(value) => value,
+                Err(_) => {
+                    return CommandResult::Error("Start index cannot be negative.".to_string())
+                }
+            };
+            let end_index: usize = match end.try_into() {
+                Ok(value) => value,
+                Err(_) => return CommandResult::Error("End index cannot be negative.".to_string()),
+            };
 
-            let sub_string = &string_value.as_str()[start_index..end_index];
-
-            CommandResult::Continue(Some(sub_string.to_string()))
+            match string_value.as_str().get(start_index..end_index) {
+                Some(sub_string) => CommandResult::Continue(Some(sub_string.to_string())),
+                None => CommandResult::Error(
+                    "Index is not on a character boundary of the text.".to_string(),
+                ),
+            }
         }
     }
 }
